@@ -14,7 +14,7 @@ from hypothesis import strategies as st
 from vlib import rngctl  # noqa: F401
 from vlib import refkernels as rk, gpcases as gc, numdiff
 from vlib.core import Sub, Violation, Inconclusive
-from inference.gp import GpRegressor, GpOptimiser, ExpectedImprovement, UpperConfidenceBound, MaxVariance
+from inference.gp import GpRegressor, GpOptimiser, ExpectedImprovement, UpperConfidenceBound, MaxVariance, SquaredExponential, RationalQuadratic
 
 mp.mp.dps = 50
 EPS = np.finfo(float).eps
@@ -241,7 +241,8 @@ def history_cases(draw):
             "x_dtype": draw(st.sampled_from(["float", "float", "int"])), "y_dtype": draw(st.sampled_from(["float", "float", "int"])),
             "acq": draw(st.sampled_from(["EI", "UCB", "MaxVar"])), "x_form": draw(st.sampled_from(["2d", "1d", "list"])),
             "init_optimizer": draw(st.sampled_from(["bfgs", "bfgs", "diffev"])), "ops": ops,
-            "bounds_form": draw(st.sampled_from(["tuples", "lists", "array", "array", "int-array"]))}
+            "bounds_form": draw(st.sampled_from(["tuples", "lists", "array", "array", "int-array"])),
+            "kernel_form": draw(st.sampled_from(["default", "default", "SE-instance", "RQ-instance", "RQ-class"]))}
 
 
 def snapshot(a):
@@ -290,7 +291,13 @@ def body_history(case, ctx):
         warnings.simplefilter("ignore")
         with np.errstate(all="ignore"):
             try:
-                opt = GpOptimiser(x_in, y_in, bounds=bounds, y_err=err_in, acquisition=acq_cls, optimizer=case["init_optimizer"])
+                kform = case.get("kernel_form", "default")
+                # the rational-quadratic kernel documents that it offers no spatial gradients, so only the gradient-free
+                # proposal optimiser applies to it
+                rq = kform.startswith("RQ")
+                kkw = {} if kform == "default" else {"kernel": {"SE-instance": SquaredExponential(), "RQ-instance": RationalQuadratic(),
+                                                                "RQ-class": RationalQuadratic}[kform]}
+                opt = GpOptimiser(x_in, y_in, bounds=bounds, y_err=err_in, acquisition=acq_cls, optimizer="diffev" if rq else case["init_optimizer"], **kkw)
             except np.linalg.LinAlgError:
                 raise Inconclusive("Cholesky failure during hyper-parameter selection")
     for name, arr, sn in zip(("x", "y", "y_err"), (x_in, y_in, err_in), snaps):
@@ -306,7 +313,7 @@ def body_history(case, ctx):
             with np.errstate(all="ignore"):
                 if op["op"] == "propose":
                     try:
-                        prop = opt.propose_evaluation(optimizer=op["optimizer"])
+                        prop = opt.propose_evaluation(optimizer=(None if op["optimizer"] is None else "diffev") if rq else op["optimizer"])
                     except np.linalg.LinAlgError:
                         raise Inconclusive("LinAlgError in proposal")
                     p = np.atleast_1d(np.asarray(prop, dtype=float))
@@ -350,6 +357,13 @@ def body_history(case, ctx):
             raise Violation("data-size", f"model holds {len(model_x)} points, the fitted regressor has x {gx.shape}, y {gy.shape}")
         if not (np.array_equal(gx, np.array(model_x)) and np.array_equal(gy, np.array(model_y))):
             raise Violation("data-content", "the regressor's data are not the initial data followed by the added evaluations in order")
+        # ... and the model is *fitted* to them: its data covariance is the documented kernel on exactly these points (one kernel
+        # object may serve every successive regressor) plus the error variances
+        kspec = {"k": "RQ" if kform.startswith("RQ") else "SE"}
+        Kref = rk.ref_build(kspec, gx, np.asarray(opt.gp.cov_hyperpars, dtype=float)) + (np.diag(np.asarray(opt.y_err, dtype=float) ** 2) if case["with_err"] else 0.0)
+        Kgot = np.asarray(opt.gp.K_xx, dtype=float)
+        if Kgot.shape != Kref.shape or not np.max(np.abs(Kgot - Kref)) <= 1e-9 * np.max(np.abs(Kref)):
+            raise Violation(f"model-covariance:{kform}", f"after {op}: the fitted regressor's data covariance is not the kernel evaluated on its {len(model_x)} points")
         if opt.acquisition.mu_max != max(model_y) or opt.acquisition.gp is not opt.gp:
             raise Violation("incumbent", f"acquisition.mu_max = {opt.acquisition.mu_max!r}, max(y) = {max(model_y)!r}")
         if case["with_err"] and np.asarray(opt.y_err).shape != (len(model_y),):
@@ -365,6 +379,7 @@ def body_history(case, ctx):
     ctx.event(f"adds={n_add}")
     ctx.event("x_form=" + case["x_form"])
     ctx.event("bounds_form=" + bform)
+    ctx.event("kernel_form=" + kform)
     ctx.event("x_dtype=" + case.get("x_dtype", "float") + ",y_dtype=" + case.get("y_dtype", "float"))
     for op in case["ops"]:
         if op["op"] == "propose":
